@@ -73,7 +73,7 @@ def gen_doc_pair(rng):
 
 class Engine(EngineBase):
     def budget(self, tier):
-        return (420, 55.0) if tier == "quick" else (16000, 900.0)
+        return (2500, 55.0) if tier == "quick" else (60000, 900.0)
 
     def run_timeout(self, tier):
         return 90.0
